@@ -63,7 +63,7 @@ def run(tier):
         traces.append(dict(meta=dict(tid=k + 1, sid="lattice%d" % rec["id"]), ev=[rr]))
     stock = QUICK if quick else [c for c in stock_cases()]
     stasks = [dict(case=c) for c in stock] + [dict(case=c, alter=True) for c in (ALTER_QUICK if quick else stock)]
-    stasks += [dict(case=c, flow=f) for c in (ALTER_QUICK if quick else stock[:25]) for f in ("init_first_untested", "init_first", "plain_untested")]
+    stasks += [dict(case=c, flow=f) for c in (ALTER_QUICK if quick else [c_ for c_ in stock if not c_.startswith(("ei/", "GBnetwork/"))][:25]) for f in ("init_first_untested", "init_first", "plain_untested")]
     sres = run_tasks("vh.eigdrv:stock_case", stasks, nproc=NCPU, timeout=900)
     srecs = []
     for c, x in zip([t["case"] + ("|after alter" if t.get("alter") else "") + ("|" + t["flow"] if t.get("flow") else "") for t in stasks], sres):
